@@ -226,7 +226,7 @@ pub fn run_c09(ctx: &Ctx) -> i32 {
     let (start, ad, third) = with_world(false, |world| {
         let ad = Addrs::of(world);
         let pre = world.pre_genesis();
-        let inst = Program { entry: Entry::Instantiate { sender: ad.rich.clone(), code: 1, funds: vec![], label: "K".into(), admin: None }, root: 0, nodes: vec![Node::default()] };
+        let inst = Program { entry: Entry::Instantiate { sender: ad.rich.clone(), code: 1, funds: vec![], label: "K".into(), admin: Some(ad.rich.clone()) }, root: 0, nodes: vec![Node::default()] };
         let mut s = advance(ctx, world, &pre, inst, "ledger-genesis", &homes, &mut st);
         s.name = "ledger-genesis".into();
         (s, ad, world.third.clone())
@@ -285,6 +285,18 @@ pub fn run_c09(ctx: &Ctx) -> i32 {
         mint_amounts.push(None);
         alphabet.push(Program { entry: Entry::Execute { sender: ad.rich.clone(), contract: ad.a.clone(), funds: l.clone() }, root: 0, nodes: vec![Node::default()] });
         mint_amounts.push(None);
+        // transfers and burns a contract initiates from its migrate entry point (paid by the contract,
+        // not by the admin who asked for the migration)
+        if l.len() <= 2 {
+            for msg in [Msg::BankSend { to: Target::Addr(ad.poor.clone()), coins: l.clone() }, Msg::BankBurn { coins: l.clone() }] {
+                alphabet.push(Program {
+                    entry: Entry::Migrate { sender: ad.rich.clone(), contract: ad.a.clone(), code: 1 },
+                    root: 0,
+                    nodes: vec![Node { subs: vec![Sub { id: 100, payload: vec![], reply_on: Mode::Never, msg, reply: None }], ..Default::default() }],
+                });
+                mint_amounts.push(None);
+            }
+        }
         // funds attached to a call the contract makes to ITSELF (a transfer like any other: it must
         // be covered and carry a positive amount, and it changes no balance)
         alphabet.push(Program {
